@@ -1,0 +1,12 @@
+//go:build verif
+// +build verif
+
+package h2
+
+// VerifNewProcessors builds the pair of sinks handed to a StreamProcessorFactory from two
+// caller-supplied processors. Processors has only unexported fields, so without this
+// constructor a StreamProcessorFactory (for example grpc.AsStreamProcessorFactory) cannot be
+// driven outside a live proxy connection. Compiled only with the `verif` build tag.
+func VerifNewProcessors(cToS, sToC Processor) *Processors {
+	return &Processors{cToS: cToS, sToC: sToC}
+}
